@@ -33,6 +33,9 @@ type MemStream struct {
 	// CloseErr, if set, is what Close returns - after closing all the same (a transport whose Close
 	// reports a failure, e.g. a TLS connection that cannot send its close alert)
 	CloseErr error
+	// CloseGate, if set, is called at the entry of Close, before the stream is marked closed: it may
+	// block, which holds the code under test between its decision to shut down and the transport's Close
+	CloseGate func()
 }
 
 // NewMemStream returns an open stream.
@@ -118,6 +121,9 @@ func (s *MemStream) Write(p []byte) (int, error) {
 
 // Close is called by the code under test.
 func (s *MemStream) Close() error {
+	if g := s.CloseGate; g != nil {
+		g()
+	}
 	s.mu.Lock()
 	s.closed = true
 	s.closeN++
